@@ -104,6 +104,27 @@ fn check_one(edges: &[EdgeSpec], untracked: bool, with_extra: bool, counts: &mut
                 desc()
             ));
         }
+        if with_extra
+            && (r.extra_debug_after_build != r.extra_debug_after_insert
+                || r.extra_debug_after_build != r.extra_debug_after_clear
+                || r.extra_debug_after_build.is_none())
+        {
+            return Some(format!(
+                "extra revision data changed: after build {:?}, after attaching {:?}, after clear_edges {:?} for {}",
+                r.extra_debug_after_build,
+                r.extra_debug_after_insert,
+                r.extra_debug_after_clear,
+                desc()
+            ));
+        }
+        if !with_extra && r.extra_debug_after_insert != r.extra_debug_after_clear {
+            return Some(format!(
+                "extra revision data changed by clear_edges: {:?} vs {:?} for {}",
+                r.extra_debug_after_insert,
+                r.extra_debug_after_clear,
+                desc()
+            ));
+        }
         if r.edges_after_clear != 0 || r.extra_after_clear != Some(true) || !r.kind_ok_after_clear {
             return Some(format!(
                 "clearing edges: {} edges left, extra {:?}, kind ok {} for {}",
